@@ -22,6 +22,8 @@
     CollectTakesAll     _mi_page_thread_free_collect writes CollectNew(observed)
     UseDelayedShape     _mi_page_try_use_delayed_free only changes the flag, never while FREEING is set
     NeverOnlyOnAdoption a NEVER flag is only overwritten by the thread that has just set the page's heap (adoption)
+    HeapPublishedBeforeFlag   a page's new heap is stored before the flag is (re)armed for it (heap delete, adoption)
+    NoHeapResetWhileFreeing   a page's heap is reset (abandonment, page free) only when no remote free is between its two CAS
     WriteShape          any other successful write to a thread-free word is a push, a take of the whole list or a flag change
     StoreNotStale       a plain store to xtf / dh does not overwrite a value the storing thread has not seen (lost update)
     RepushTaken         a block _mi_heap_delayed_free_partial pushes back is one it took
@@ -31,8 +33,8 @@
 EXTENDS Integers, Sequences, FiniteSets, TLC, Json, IOUtils
 CONSTANT Relaxed
 Tr == ndJsonDeserialize(IOEnv.TRACE)
-VARIABLES step, xtf, dh, dhset, rpc, taken, lastw, seen
-vars == <<step, xtf, dh, dhset, rpc, taken, lastw, seen>>
+VARIABLES step, xtf, dh, dhset, rpc, taken, lastw, seen, lasttry
+vars == <<step, xtf, dh, dhset, rpc, taken, lastw, seen, lasttry>>
 G(name, d, cond) == IF cond THEN TRUE ELSE (Relaxed /\ PrintT(<<"GUARDFAIL", name, step + 1, d>>))
 
 NULL == <<0, 0, 0>>
@@ -46,7 +48,7 @@ Empty == [x \in {} |-> 0]
 Idle == [ph |-> "idle", pg |-> 0, blk |-> NULL, hp |-> 0]
 Own(ev) == IF ev.fl[1] = 0 THEN NULL ELSE <<ev.fl[1], ev.fl[2], 0>>   \* the block containing the pointer being released, at its start
 
-Init == step = 0 /\ xtf = Empty /\ dh = Empty /\ dhset = Empty /\ rpc = Empty /\ taken = Empty /\ lastw = Empty /\ seen = Empty
+Init == step = 0 /\ xtf = Empty /\ dh = Empty /\ dhset = Empty /\ rpc = Empty /\ taken = Empty /\ lastw = Empty /\ seen = Empty /\ lasttry = Empty
 
 IsCas(ev) == ev.k \in {"casw", "cass"}
 Reads(ev) == ev.k \in {"ld", "casw", "cass", "xchg"}
@@ -98,6 +100,7 @@ XtfStep(ev) ==
   /\ taken' = IF ev.f = "_mi_page_try_use_delayed_free" /\ ((Writes(ev) /\ new[2] \in {"USE", "NEVER"}) \/ (ev.k = "ld" /\ obs[2] \in {"USE", "NEVER"}))
               THEN Put(taken, t, {b \in Get(taken, t, {}) : b[1] # P}) ELSE taken
   /\ lastw' = IF ev.f = "_mi_page_try_use_delayed_free" THEN lastw ELSE Put(lastw, t, <<"xtf", P>>)
+  /\ lasttry' = Put(lasttry, t, IF ev.f = "_mi_page_try_use_delayed_free" THEN P ELSE 0)
   /\ UNCHANGED <<dh, dhset>>
 
 \* ---- a step on a heap's delayed-free word
@@ -138,6 +141,7 @@ DhStep(ev) ==
   /\ rpc' = Put(rpc, t, r2)
   /\ seen' = Put(seen, <<t, "dh", H>>, IF wr THEN new ELSE obs)
   /\ lastw' = Put(lastw, t, <<"dh", H>>)
+  /\ lasttry' = Put(lasttry, t, 0)
   /\ UNCHANGED xtf
 
 \* ---- a step on a page's heap word
@@ -150,23 +154,29 @@ XheapStep(ev) ==
             ELSE [r EXCEPT !.ph = "lddh", !.hp = ev.o[1]]
   IN
   /\ G("RemoteSequence", <<r.ph, ev.k, "xheap">>, rOK)
+  \* a page's heap is published before its delayed-free flag is (re)armed for that heap (heap delete / adoption): a remote free that
+  \* finds the flag armed must read the new heap
+  /\ (ev.k = "st" /\ ev.n[1] # 0 => G("HeapPublishedBeforeFlag", <<P, ev.f>>, Get(lasttry, t, 0) # P))
+  \* a page gives up its heap (abandonment, page free) only when no remote free is between its two CAS
+  /\ (ev.k = "st" /\ ev.n[1] = 0 /\ P \in DOMAIN xtf => G("NoHeapResetWhileFreeing", <<P, xtf[P]>>, xtf[P][2] # "FREEING"))
   /\ rpc' = Put(rpc, t, r2)
   /\ lastw' = Put(lastw, t, <<"xheap", P>>)
+  /\ lasttry' = IF ev.k = "st" THEN Put(lasttry, t, 0) ELSE lasttry
   /\ UNCHANGED <<xtf, dh, dhset, taken, seen>>
 
 Next ==
   /\ step < Len(Tr) /\ step' = step + 1
   /\ LET ev == Tr[step + 1] IN
-     CASE ev.e = "step" /\ ev.id = 0 -> UNCHANGED <<xtf, dh, dhset, rpc, taken, lastw, seen>>      \* (table of ids full)
+     CASE ev.e = "step" /\ ev.id = 0 -> UNCHANGED <<xtf, dh, dhset, rpc, taken, lastw, seen, lasttry>>      \* (table of ids full)
        [] ev.e = "step" /\ ev.w = "xtf" -> XtfStep(ev)
        [] ev.e = "step" /\ ev.w = "dh" -> DhStep(ev)
        [] ev.e = "step" /\ ev.w = "xheap" -> XheapStep(ev)
        [] ev.e = "ret" ->
             /\ G("RearmAfterDrain", <<ev.t, ev.op, Get(taken, ev.t, {})>>, Get(taken, ev.t, {}) = {})
             /\ taken' = Put(taken, ev.t, {})
-            /\ UNCHANGED <<xtf, dh, dhset, rpc, lastw, seen>>
-       [] ev.e \in {"reset", "cfg"} -> xtf' = Empty /\ dh' = Empty /\ dhset' = Empty /\ rpc' = Empty /\ taken' = Empty /\ lastw' = Empty /\ seen' = Empty
-       [] OTHER -> UNCHANGED <<xtf, dh, dhset, rpc, taken, lastw, seen>>
+            /\ UNCHANGED <<xtf, dh, dhset, rpc, lastw, seen, lasttry>>
+       [] ev.e \in {"reset", "cfg"} -> xtf' = Empty /\ dh' = Empty /\ dhset' = Empty /\ rpc' = Empty /\ taken' = Empty /\ lastw' = Empty /\ seen' = Empty /\ lasttry' = Empty
+       [] OTHER -> UNCHANGED <<xtf, dh, dhset, rpc, taken, lastw, seen, lasttry>>
 Spec == Init /\ [][Next]_vars
 TraceView == step
 TraceAccepted == /\ PrintT(<<"TVDIAMETER", TLCGet("stats").diameter - 1>>) /\ TLCGet("stats").diameter - 1 = Len(Tr)
